@@ -165,4 +165,10 @@ def r1_6(ctx):
     borrow(ctx, r5_8, "R5.8", "R1.6", " [cropped / padded text fits the width it was given only if it is measured in cells]")
 
 
-RULES = [r1_1, r1_2, r1_3, r1_4, r1_5, r1_6]
+def r1_7(ctx):
+    from .c08 import r8_12
+    from .common import borrow
+    borrow(ctx, r8_12, "R8.12", "R1.7", " [a progress bar never exceeds its width only if its fill is computed from the clamped completed value]")
+
+
+RULES = [r1_1, r1_2, r1_3, r1_4, r1_5, r1_6, r1_7]
